@@ -132,7 +132,13 @@ def eval_adverb_each2(f, a, b):
         return bknp.asarray([]) if is_list(a) or is_list(b) else ""
     if is_atom(a) and is_atom(b):
         return f(a,b)
-    r = bknp.asarray([f(x,y) for x,y in zip(_chars(a),_chars(b))])
+    r = [f(x,y) for x,y in zip(_chars(a),_chars(b))]
+    try:
+        r = bknp.asarray(r)
+    except ValueError: # results of different shapes: a list of lists
+        q = bknp.empty(len(r), dtype=object)
+        q[:] = r
+        r = q
     return ''.join(r) if r.dtype == '<U1' else r
 
 
